@@ -68,7 +68,7 @@ func runStep(db *redka.DB, mode string, st step) { runStepQ(db, mode, st, false)
 func runStepQ(db *redka.DB, mode string, st step, quiet bool) {
 	seq++
 	var pre, post *dumpT
-	var res string
+	var res, views string
 	var t0, t1 int64
 	var derr error
 	fail := func(where string, err error) {
@@ -99,6 +99,11 @@ func runStepQ(db *redka.DB, mode string, st step, quiet bool) {
 		if derr != nil {
 			fail("post-dump", derr)
 		}
+		if withViews {
+			if views, derr = takeViews(db.RW, post); derr != nil {
+				fail("views", derr)
+			}
+		}
 		res = raw
 	case "tx":
 		err := db.Update(func(tx *redka.Tx) error {
@@ -120,6 +125,9 @@ func runStepQ(db *redka.DB, mode string, st step, quiet bool) {
 			}()
 			t1 = nowMs()
 			post, err = takeDump(rawTx)
+			if err == nil && withViews {
+				views, err = takeViews(rawTx, post)
+			}
 			return err // nil: commit whatever the operation reported
 		})
 		if err != nil {
@@ -137,6 +145,10 @@ func runStepQ(db *redka.DB, mode string, st step, quiet bool) {
 	}
 	if quiet {
 		fmt.Fprintf(out, "#! %s\n", text)
+		return
+	}
+	if withViews {
+		fmt.Fprintf(out, "%d %d %s | %s | %s | %s | %s | %s\n", seq, t1, mode, pre.render(ident), text, res, post.render(tm), views)
 		return
 	}
 	fmt.Fprintf(out, "%d %d %s | %s | %s | %s | %s\n", seq, t1, mode, pre.render(ident), text, res, post.render(tm))
@@ -218,6 +230,7 @@ func main() {
 	fams := flag.String("families", "str,key,list,set,hash,zset,expire", "operation families")
 	mode := flag.String("mode", "db", "db | tx | mix")
 	hostile := flag.Float64("hostile", 0.05, "probability of hostile names/values")
+	flag.BoolVar(&withViews, "views", false, "append the content of the six SQL views to every line")
 	flag.Parse()
 
 	out = bufio.NewWriterSize(os.Stdout, 1<<20)
